@@ -201,6 +201,11 @@ def _frames(which):
 
 
 def check_probe(s, frames, viols, tokens=True):
+    # history first: the very first time this process escapes s, it is as a TEXT child
+    # (a result cache keyed on the string alone would now hold the text-escaped form)
+    from htmltools import Tag
+    if s != PH:
+        Tag("p", s, Tag("b")).get_html_string()
     for name, (f, pre, suf, names) in frames.items():
         out, _ = f(s)
         if not (out.startswith(pre) and out.endswith(suf) and len(out) >= len(pre) + len(suf)):
